@@ -194,8 +194,13 @@ fn parse_pattern_nosubst<L: Language>(
                 NestedSyntaxElem::Pattern(_) => SyntaxElem::AppliedId(AppliedId::null()),
             })
             .collect();
-        let node = L::from_syntax(&syntax_elems_mock)
-            .ok_or_else(|| ParseError::FromSyntaxFailed(syntax_elems_mock))?;
+        let Some(node) = L::from_syntax(&syntax_elems_mock) else {
+            return Err(ParseError::FromSyntaxFailed(syntax_elems_mock));
+        };
+        // from_syntax ignores surplus arguments; a node must use up all of them.
+        if node.to_syntax().len() != syntax_elems_mock.len() {
+            return Err(ParseError::FromSyntaxFailed(syntax_elems_mock));
+        }
         let syntax_elems = syntax_elems
             .into_iter()
             .filter_map(|x| match x {
